@@ -21,6 +21,7 @@ function mk(name, vals, hasReturn, hasThrow, retDone) {
   return { [Symbol.iterator]() { return it; } };
 }
 function f2(a, b) { return [a, b]; }
+function at(d, f) { return d > 0 ? at(d - 1, f) : f(); }
 function deepTry(d) { try { if (d > 0) deepTry(d - 1); } finally { } } // grows the VM's try stack while an iterator is being closed
 function reenter(m) { try { log(it[m]('re')); log('reentered'); } catch (e) { log('reenter ' + m + ' ' + e.constructor.name); } }
 function* inner() { try { var a = yield 'i1'; log('inner got ' + describe(a)); yield 'i2'; } finally { log('inner fin'); } return 'inner result'; }
@@ -173,7 +174,7 @@ func GenGeneratorCase(t *rapid.T) (*Node, Options, bool) {
 	if g.async {
 		prog.Kids = append(prog.Kids,
 			FuncDecl("async", "af", Params(Id("p")), body...),
-			ExprStmt(Call(Dot(Call(Id("af"), Num(1)), "then"), ArrowExpr(Params(Id("v")), Call(Id("log"), Arr(Str("resolved"), Id("v"), Id("acc")))), ArrowExpr(Params(Id("e")), Call(Id("log"), Arr(Str("rejected"), Id("e"), Id("acc")))))),
+			ExprStmt(Call(Dot(Call(Id("at"), Num(float64([]int{0, 1, 3}[g.draw(3, "aat")])), Func("function", "", Params(), Return(Call(Id("af"), Num(1))))), "then"), ArrowExpr(Params(Id("v")), Call(Id("log"), Arr(Str("resolved"), Id("v"), Id("acc")))), ArrowExpr(Params(Id("e")), Call(Id("log"), Arr(Str("rejected"), Id("e"), Id("acc")))))),
 			ExprStmt(Call(Dot(Call(Dot(Id("Promise"), "resolve")), "then"), ArrowExpr(Params(), Call(Id("log"), Str("tick"))))),
 			Log(Str("sync end")))
 	} else {
@@ -184,7 +185,12 @@ func GenGeneratorCase(t *rapid.T) (*Node, Options, bool) {
 				nonPlainNext = true
 			}
 			arg := Str(fmt.Sprintf("%s%d", m[:1], i))
-			call := Call(Dot(Id("it"), m), arg)
+			var call *Node = Call(Dot(Id("it"), m), arg)
+			// each call of the history is issued from a call depth of its own: the saved try frames and
+			// stack positions of the suspended body are relative to the depth of the call that resumed it last
+			if d := []int{0, 0, 0, 1, 2, 3, 7}[g.draw(7, "at")]; d > 0 {
+				call = Call(Id("at"), Num(float64(d)), Func("function", "", Params(), Return(call)))
+			}
 			prog.Kids = append(prog.Kids, Try(Block(Log(call)), Id("e"), Block(Log(Str("threw")), Log(Id("e"))), nil))
 		}
 		prog.Kids = append(prog.Kids, Log(Id("acc")))
